@@ -122,10 +122,11 @@ def run_schedule(nthreads, ntests, outcomes, use_tags, ctl_calls, fault_at, sche
                         f.addSuccess(test)
                     else:
                         getattr(f, oc)(test, details={})
-                    f.stopTest(test)
                     reported.setdefault(w, []).append(test.id())
                 except TargetFault:
                     errors.setdefault(w, []).append(test.id())
+                finally:
+                    f.stopTest(test)          # as TestCase.run does: stopTest in a finally
             if ctl_calls & 2:
                 try:
                     f.stop()
@@ -178,8 +179,15 @@ def run_schedule(nthreads, ntests, outcomes, use_tags, ctl_calls, fault_at, sche
             mids = block[3:-2]
             if any(e[1] != "tags" for e in mids):
                 problems.append("%s: unexpected events between end time and outcome: %r" % (tid_test, block))
-            if use_tags and not any(("tag-w%d-t%d" % (w, n)) in e[2] for e in mids):
-                problems.append("%s: block does not carry its own tags: %r" % (tid_test, mids))
+            if use_tags:
+                got_tags = set()
+                for e in mids:
+                    got_tags |= set(e[2])
+                    got_tags -= set(e[3])
+                if got_tags != {"tag-w%d-t%d" % (w, n)}:
+                    problems.append("%s: block carries tags %r instead of exactly its own" % (tid_test, sorted(got_tags)))
+            elif mids:
+                problems.append("%s: block carries tags although the test has none: %r" % (tid_test, mids))
             if a < last_b:
                 problems.append("%s: delivered out of its thread's order" % tid_test)
             last_b = b
